@@ -302,6 +302,7 @@ fn print_path(seed: u64, rounds: usize) {
     }
     let saved = unsafe { libc::dup(1) };
     assert!(saved >= 0);
+    unsafe { libc::signal(libc::SIGPIPE, libc::SIG_IGN) };
     let me = unsafe { libc::pthread_self() } as usize;
     let mut results: Vec<Value> = vec![];
     let kinds = ["direct", "print", "println", "direct", "println0"];
@@ -325,6 +326,7 @@ fn print_path(seed: u64, rounds: usize) {
                     libc::close(fds[1]);
                 }
                 let rfd = fds[0];
+                let cap = 3 * len + 65536;
                 let reader = std::thread::spawn(move || {
                     let mut got: Vec<u8> = vec![];
                     let mut buf = [0u8; 1500];
@@ -334,6 +336,9 @@ fn print_path(seed: u64, rounds: usize) {
                             break;
                         }
                         got.extend_from_slice(&buf[..n as usize]);
+                        if got.len() > cap {
+                            break; // a writer that never stops: closing the pipe ends it with EPIPE
+                        }
                         std::thread::sleep(std::time::Duration::from_micros(40));
                     }
                     unsafe { libc::close(rfd) };
@@ -429,6 +434,7 @@ fn pipe_path(seed: u64, rounds: usize) {
         sa.sa_flags = 0;
         libc::sigaction(libc::SIGUSR1, &sa, core::ptr::null_mut());
     }
+    unsafe { libc::signal(libc::SIGPIPE, libc::SIG_IGN) };
     let me = unsafe { libc::pthread_self() } as usize;
     let mut out = Out::new();
     let kinds = ["read_to_end", "read_to_string", "read_exact", "write_all", "write_fmt"];
@@ -472,7 +478,9 @@ fn pipe_path(seed: u64, rounds: usize) {
                             let n = (1 + r.below(m)) as usize;
                             let n = n.min(src.len() - o);
                             let w = unsafe { libc::write(wfd, src[o..].as_ptr().cast(), n) };
-                            assert!(w > 0);
+                            if w <= 0 {
+                                break; // the reader under test gave up and closed its end
+                            }
                             o += w as usize;
                             if r.below(3) == 0 {
                                 std::thread::sleep(std::time::Duration::from_micros(30 + r.below(300)));
@@ -506,11 +514,15 @@ fn pipe_path(seed: u64, rounds: usize) {
                     res.unwrap_or((false, -2, vec![]))
                 } else {
                     let rfd = fds[0];
+                    let cap = 3 * len + 65536;
                     let drain = std::thread::spawn(move || {
                         let mut r = vharness::Rng::new(chunk_seed);
                         let mut got: Vec<u8> = vec![];
                         let mut buf = [0u8; 3000];
                         loop {
+                            if got.len() > cap {
+                                break; // runaway writer: closing the pipe ends it with EPIPE
+                            }
                             let m = *r.pick(&[1u64, 40, 900, 3000]);
                             let want = (1 + r.below(m)) as usize;
                             let n = unsafe { libc::read(rfd, buf.as_mut_ptr().cast(), want.min(buf.len())) };
